@@ -3,33 +3,55 @@ import RustCcModel.Proofs.WeakInv10
 namespace RustCc
 open World
 
+variable {ex : Bool}
+
 variable (c : Cfg) (w : World)
 
 /-- The tail of `new_cyclic`: optionally a clone of the closure's `Weak` is stored in a weak field of the new value, the
 value is initialised, the closure's `Weak` is dropped, the new `Cc` goes into the table. -/
-theorem cyc_tail {w : World} (b : Bool) (j k : Nat) (id : Id) (h : WeakH w [id]) (hid : id < w.next) :
-    WeakH (World.putH (World.weakDrop (World.upd
+theorem cyc_tail {w : World} (b : Bool) (j k : Nat) (id : Id) (h : WeakH ex w [id]) (hid : id < w.next)
+    (hcl : ex = true → b = true → (w.heap id).wslots[j]? = some none) :
+    WeakH ex (World.putH (World.weakDrop (World.upd
       (if b = true then (World.upd (World.updMeta w id fun m => { m with weak := m.weak + 1 }) id fun o => { o with wslots := o.wslots.set j (some id) }) else w)
       id fun o => { o with valLive := true, rc := o.rc + 1 }) (.to id)) k id) [] := by
-  have h1 : WeakH (if b = true then (World.upd (World.updMeta w id fun m => { m with weak := m.weak + 1 }) id fun o => { o with wslots := o.wslots.set j (some id) }) else w) [id] := by
+  have h1 : WeakH ex (if b = true then (World.upd (World.updMeta w id fun m => { m with weak := m.weak + 1 }) id fun o => { o with wslots := o.wslots.set j (some id) }) else w) [id] := by
     cases b with
     | false => exact h
     | true =>
       have hl := h.live_of_pos (x := id) (by simp)
       have h2 := h.incr id 1 hl hid
-      have h3 := WeakH.updWslots (w := w.updMeta id fun m => { m with weak := m.weak + 1 }) (E := [id]) id
-        (fun o => { o with wslots := o.wslots.set j (some id) }) [id] []
-        (by simpa using h2) hid
-        (fun z => by have := optIds_set_le (w.heap id).wslots j (some id) z; simpa using this) rfl rfl
-      simpa using h3
-  have h2 : WeakH (World.upd (if b = true then (World.upd (World.updMeta w id fun m => { m with weak := m.weak + 1 }) id fun o => { o with wslots := o.wslots.set j (some id) }) else w)
+      cases hex : ex with
+      | false =>
+        subst hex
+        have h3 := WeakH.updWslots_le (w := w.updMeta id fun m => { m with weak := m.weak + 1 }) (E := [id]) id
+          (fun o => { o with wslots := o.wslots.set j (some id) }) [id] []
+          (by simpa using h2) hid
+          (fun z => by have := optIds_set_le (w.heap id).wslots j (some id) z; simpa using this) rfl rfl
+        simpa using h3
+      | true =>
+        subst hex
+        have hsl := hcl rfl rfl
+        have hj : j < (w.heap id).wslots.length := by
+          cases hlt : (w.heap id).wslots[j]? with
+          | none => rw [hlt] at hsl; cases hsl
+          | some v => exact (List.getElem?_eq_some_iff.1 hlt).1
+        have h3 := WeakH.updWslots (w := w.updMeta id fun m => { m with weak := m.weak + 1 }) (E := [id]) id
+          (fun o => { o with wslots := o.wslots.set j (some id) }) [id] []
+          (by simpa using h2) hid
+          (fun z => by
+            have := optIds_set_count (w.heap id).wslots j (some id) z hj
+            rw [hsl] at this
+            simpa using this) rfl rfl
+        simpa using h3
+  have h2 : WeakH ex (World.upd (if b = true then (World.upd (World.updMeta w id fun m => { m with weak := m.weak + 1 }) id fun o => { o with wslots := o.wslots.set j (some id) }) else w)
       id fun o => { o with valLive := true, rc := o.rc + 1 }) [id] := h1.updAt id _ rfl rfl rfl
   exact (WeakH.weakDrop h2).putH k id
 
 theorem stepFrame_weakH_newCyclicEnd (k : Nat) (id : Id) (sp : NewSpec) (selfw : Option Nat) (rest : List Frame)
-    (ha : AllInv c w) (h : WeakOk w) (hs : w.stack = .newCyclicEnd k id sp selfw :: rest) :
-    WeakH (stepFrame c { w with stack := rest } (.newCyclicEnd k id sp selfw)) [] := by
-  have hw0 : WeakH { w with stack := rest } [id] := (h.pop hs).1
+    (ha : AllInv c w) (h : WeakH ex w []) (hs : w.stack = .newCyclicEnd k id sp selfw :: rest)
+    (hcl : ex = true → ∀ j, selfw = some j → j < sp.nw → (w.heap id).wslots[j]? = some none) :
+    WeakH ex (stepFrame c { w with stack := rest } (.newCyclicEnd k id sp selfw)) [] := by
+  have hw0 : WeakH ex { w with stack := rest } [id] := h.pop hs
   obtain ⟨_, hids⟩ := ha.counts.pop hs
   have hid : id < w.next := hids id (by simp [Frame.ids])
   cases selfw with
@@ -38,42 +60,48 @@ theorem stepFrame_weakH_newCyclicEnd (k : Nat) (id : Id) (sp : NewSpec) (selfw :
     repeat' split
     all_goals first
       | exact (WeakH.pushFrame (.newCyclicEnd k id sp none) (E := []) hw0).raise
-      | exact cyc_tail false 0 k id hw0 hid
-      | exact cyc_tail true _ k id hw0 hid
+      | exact cyc_tail false 0 k id hw0 hid (fun _ e => nomatch e)
+      | contradiction
+      | (exfalso; simp_all; done)
   | some j =>
     simp only [stepFrame]
     repeat' split
     all_goals first
       | exact (WeakH.pushFrame (.newCyclicEnd k id sp (some j)) (E := []) hw0).raise
-      | exact cyc_tail false 0 k id hw0 hid
-      | exact cyc_tail true _ k id hw0 hid
+      | exact cyc_tail false 0 k id hw0 hid (fun _ e => nomatch e)
+      | (refine cyc_tail true j k id hw0 hid (fun e _ => hcl e j rfl ?_); simp_all; done)
 
 theorem unwindFrame_weakH_newCyclicEnd (k : Nat) (id : Id) (sp : NewSpec) (selfw : Option Nat) (rest : List Frame)
-    (h : WeakOk w) (hs : w.stack = .newCyclicEnd k id sp selfw :: rest) :
-    WeakH (unwindFrame c { w with stack := rest } (.newCyclicEnd k id sp selfw)) [] := by
-  have hw0 : WeakH { w with stack := rest } [id] := (h.pop hs).1
+    (h : WeakH ex w []) (hs : w.stack = .newCyclicEnd k id sp selfw :: rest) :
+    WeakH ex (unwindFrame c { w with stack := rest } (.newCyclicEnd k id sp selfw)) [] := by
+  have hw0 : WeakH ex { w with stack := rest } [id] := h.pop hs
   simp only [unwindFrame]
   exact WeakH.weakDrop (hw0.dropFree id)
 
 /-- `Cleaner::register` after the action is stored: `cc.downgrade()` and the `Cleanable` goes into the table. -/
-theorem regInsert_tail_weak {w1 : World} (m : Id) (k aid idx : Nat) (om' : Obj) (h : WeakH w1 []) (hm : m < w1.next)
+theorem regInsert_tail_weak {w1 : World} (m : Id) (k aid idx : Nat) (om' : Obj) (h : WeakH ex w1 []) (hm : m < w1.next)
     (hb : (w1.heap m).boxLive = true)
-    (hws : om'.wslots = (w1.heap m).wslots) (hhm : om'.hasMeta = (w1.heap m).hasMeta) (hbl : om'.boxLive = (w1.heap m).boxLive) :
-    WeakH (if (((w1.upd m fun _ => om').initMeta m).metas m).weak ≥ c.weakMax then ((w1.upd m fun _ => om').initMeta m).raise
+    (hws : om'.wslots = (w1.heap m).wslots) (hhm : om'.hasMeta = (w1.heap m).hasMeta) (hbl : om'.boxLive = (w1.heap m).boxLive)
+    (hcl : ex = true → k < w1.K.length ∧ w1.getK k = none) :
+    WeakH ex (if (((w1.upd m fun _ => om').initMeta m).metas m).weak ≥ c.weakMax then ((w1.upd m fun _ => om').initMeta m).raise
       else (((((w1.upd m fun _ => om').initMeta m).updMeta m fun mm => { mm with weak := mm.weak + 1 }).removeFromList m).setK k
         (some (m, idx, aid)))) [] := by
-  have h1 : WeakH (w1.upd m fun _ => om') [] := h.updAt m _ hws hhm hbl
+  have h1 : WeakH ex (w1.upd m fun _ => om') [] := h.updAt m _ hws hhm hbl
   have hb1 : ((w1.upd m fun _ => om').heap m).boxLive = true := by simp [hbl, hb]
   have h2 := h1.initMeta m
   split
   · exact h2.raise
   · have h3 := (h2.incr m 1 (h1.initMeta_live m hb1) (by simpa using hm)).removeFromList m
-    exact WeakH.setK' k (some (m, idx, aid)) (by simpa [kEntry] using h3)
+    refine WeakH.setKx k (some (m, idx, aid)) (by simpa [kEntry] using h3) ?_
+    intro e
+    have := hcl e
+    simpa [World.getK] using this
 
 theorem stepFrame_weakH_regInsert (owner : Id) (script k : Nat) (cap : Option Id) (rest : List Frame)
-    (ha : AllInv c w) (h : WeakOk w) (hs : w.stack = .regInsert owner script k cap :: rest) :
-    WeakH (stepFrame c { w with stack := rest } (.regInsert owner script k cap)) [] := by
-  have hw0 : WeakH { w with stack := rest } [] := (h.pop hs).1
+    (ha : AllInv c w) (h : WeakH ex w []) (hs : w.stack = .regInsert owner script k cap :: rest)
+    (hcl : ex = true → k < w.K.length ∧ w.getK k = none) :
+    WeakH ex (stepFrame c { w with stack := rest } (.regInsert owner script k cap)) [] := by
+  have hw0 : WeakH ex { w with stack := rest } [] := h.pop hs
   obtain ⟨_, hids⟩ := ha.counts.pop hs
   have hown : owner < w.next := hids owner (by simp [Frame.ids])
   simp only [stepFrame]
@@ -83,37 +111,48 @@ theorem stepFrame_weakH_regInsert (owner : Id) (script k : Nat) (cap : Option Id
     have hmlt : m < w.next := field_lt ha.counts hown (by simp [fieldsOf, hm])
     have hmb : (w.heap m).boxLive = true := ha.inv.oi.boxLive_of_rc (field_rc ha.counts hown (by simp [fieldsOf, hm]))
     split
-    · have : WeakH (World.push { w with stack := rest } (.actionEnd cap false)) [] := by wneutral hw0
+    · have : WeakH ex (World.push { w with stack := rest } (.actionEnd cap false)) [] := by wneutral hw0
       exact this.raise
-    · have hw1 : WeakH { ({ w with stack := rest } : World) with nextAid := w.nextAid + 1 } [] := by wneutral hw0
+    · have hw1 : WeakH ex { ({ w with stack := rest } : World) with nextAid := w.nextAid + 1 } [] := by wneutral hw0
       cases hfree : (w.heap m).afree with
       | nil =>
         simp only []
-        exact regInsert_tail_weak c m k w.nextAid (w.heap m).aslots.length _ hw1 hmlt hmb rfl rfl rfl
+        exact regInsert_tail_weak c m k w.nextAid (w.heap m).aslots.length _ hw1 hmlt hmb rfl rfl rfl hcl
       | cons i fr =>
         simp only []
-        exact regInsert_tail_weak c m k w.nextAid i _ hw1 hmlt hmb rfl rfl rfl
+        exact regInsert_tail_weak c m k w.nextAid i _ hw1 hmlt hmb rfl rfl rfl hcl
 
-/-- **Every frame step preserves the weak invariant.** -/
-theorem stepFrame_weakH (f : Frame) (rest : List Frame) (ha : AllInv c w) (h : WeakOk w) (hs : w.stack = f :: rest) :
-    WeakH (stepFrame c { w with stack := rest } f) [] := by
+/-- What makes a frame step lose no `Weak`: `Cleaner::register` stores its `Cleanable` in a free table entry (the harness
+forgets — leaks — whatever an occupied entry held), and the closure's `Weak` stored by `new_cyclic` goes into an empty weak
+field. -/
+def Frame.wclean (w : World) : Frame → Prop
+  | .regInsert _ _ k _ => k < w.K.length ∧ w.getK k = none
+  | .newCyclicEnd _ id sp (some j) => j < sp.nw → (w.heap id).wslots[j]? = some none
+  | _ => True
+
+/-- **Every frame step preserves the weak invariant** (and exactness, when the step loses no `Weak`). -/
+theorem stepFrame_weakH (f : Frame) (rest : List Frame) (ha : AllInv c w) (h : WeakH ex w []) (hwc : wcOk w.stack)
+    (hs : w.stack = f :: rest) (hcl : ex = true → f.wclean w) :
+    WeakH ex (stepFrame c { w with stack := rest } f) [] := by
   cases f with
-  | script ops self wc top => exact stepFrame_weakH_script c w ops self wc top rest ha h hs
-  | afterDropValue x oldDrop => exact stepFrame_weakH_afterDropValue c w x oldDrop rest h hs
-  | dropFields x unw => exact stepFrame_weakH_dropFields c w x unw rest ha h hs
-  | deallocDrop N r oldDrop => exact stepFrame_weakH_deallocDrop c w N r oldDrop rest h hs
-  | newAlloc k sp => exact stepFrame_weakH_newAlloc c w k sp rest ha h hs
-  | newCyclicAlloc k sp body selfw => exact stepFrame_weakH_newCyclicAlloc c w k sp body selfw rest h hs
-  | newCyclicEnd k id sp selfw => exact stepFrame_weakH_newCyclicEnd c w k id sp selfw rest ha h hs
-  | mapAlloc owner => exact stepFrame_weakH_mapAlloc c w owner rest ha h hs
-  | regInsert owner script k cap => exact stepFrame_weakH_regInsert c w owner script k cap rest ha h hs
-  | _ => exact stepFrame_weakH_neutral c _ _ (h.pop hs).1 trivial
+  | script ops self wc top => exact stepFrame_weakH_script c w ops self wc top rest ha h hwc hs
+  | afterDropValue x oldDrop => exact stepFrame_weakH_afterDropValue c w x oldDrop rest h hwc hs
+  | dropFields x unw => exact stepFrame_weakH_dropFields c w x unw rest ha h hwc hs
+  | deallocDrop N r oldDrop => exact stepFrame_weakH_deallocDrop c w N r oldDrop rest h hwc hs
+  | newAlloc k sp => exact stepFrame_weakH_newAlloc c w k sp rest ha h hwc hs
+  | newCyclicAlloc k sp body selfw => exact stepFrame_weakH_newCyclicAlloc c w k sp body selfw rest h hwc hs
+  | newCyclicEnd k id sp selfw =>
+    refine stepFrame_weakH_newCyclicEnd c w k id sp selfw rest ha h hs ?_
+    intro e j hj; subst hj; exact hcl e
+  | mapAlloc owner => exact stepFrame_weakH_mapAlloc c w owner rest ha h hwc hs
+  | regInsert owner script k cap => exact stepFrame_weakH_regInsert c w owner script k cap rest ha h hs hcl
+  | _ => exact stepFrame_weakH_neutral c _ _ (h.pop hs) trivial
 
-/-- **Every unwinding step preserves the weak invariant.** -/
-theorem unwindFrame_weakH (f : Frame) (rest : List Frame) (h : WeakOk w) (hs : w.stack = f :: rest) :
-    WeakH (unwindFrame c { w with stack := rest } f) [] := by
+/-- **Every unwinding step preserves the weak invariant** (exactly: unwinding drops every `Weak` it holds). -/
+theorem unwindFrame_weakH (f : Frame) (rest : List Frame) (h : WeakH ex w []) (hs : w.stack = f :: rest) :
+    WeakH ex (unwindFrame c { w with stack := rest } f) [] := by
   cases f with
   | newCyclicEnd k id sp selfw => exact unwindFrame_weakH_newCyclicEnd c w k id sp selfw rest h hs
-  | _ => exact unwindFrame_weakH_neutral c _ _ (h.pop hs).1 trivial
+  | _ => exact unwindFrame_weakH_neutral c _ _ (h.pop hs) trivial
 
 end RustCc
